@@ -26,7 +26,7 @@ ValueOnly(c1, c2) == ty' = "ormap" /\ c1.e = c2.e /\ c1.clock = c2.clock /\ c1.v
 Cause(e, r, c2) == IF StaleLWW(e, r) THEN "LWWSetOverwrites"
                    ELSE IF ValueOnly(CoreAt(e, r), c2) THEN "ORMapValueDrop" ELSE ""
 
-Rep(ok, e, kind, r, cause) == ok \/ PrintT(<<"MISMATCH", l, ty', kind, r, cause>>)
+Rep(ok, e, kind, r, cause) == IF ok THEN TRUE ELSE PrintT(<<"MISMATCH", l, ty', kind, r, cause>>)
 
 Judge(e) ==
   /\ \A r1, r2 \in Nodes :
